@@ -156,3 +156,13 @@ prop('C17', 'p64', 'exploration',
      T(8, 120, 16, 2500),
      'model-based stateful property testing against a uint64 interval-set model (rapid state machine)',
      'generated histories compared step by step with a model', 'trusted: interval-set model; independent 64-bit decoder for whole-bucket contents', SER_ASSUME, run='^TestC17$')
+
+prop('C18', 'p64', 'fault_enumeration',
+     'per rapid-generated roaring64 bitmap (0..3 buckets from {0,1,2,0x7FFFFFFF,0xFFFFFFFE,0xFFFFFFFF}, then 0-4 range mutations): writers agree (ToBytes/WriteTo/MarshalBinary/ToBase64), size == GetSerializedSizeInBytes == n, an independent decoder of the 64-bit layout reads the bytes back to the model, '
+     'ReadFrom (7-byte reads, counting reader) / FromUnsafeBytes / UnmarshalBinary / FromBase64 with trailing garbage give an Equal, validating, still-working bitmap and consume exactly the serialization; then fault enumeration: EVERY proper prefix (<=1024 bytes; else 200 random cuts + header cuts) through all four entry points, '
+     'bucket-count corruptions {0, n-1, n+1, n+2, 1000} in process and {2^31, 2^33, 2^62, 2^64-1} in a CHILD PROCESS under a 4 GiB address-space limit (death, panic or >60 s = violation), duplicate/descending bucket keys, inner cookie/count/byte corruptions. '
+     'Non-trivial = >=2 buckets or a damaged stream beyond the count; distinct = FNV-64 of the set description',
+     T(8, 60, 16, 1200),
+     'property-based round-trip testing + structured fault enumeration with child-process isolation for attacker-sized counts',
+     'generated round trips; truncations exhaustive up to 1 KiB per base stream; count corruptions enumerated from a fixed list',
+     'trusted: independent 64-bit codec; RLIMIT_AS semantics', SER_ASSUME, run='^TestC18$')
